@@ -110,7 +110,7 @@ func propertyOracle(s *Spec, r *Run) []Failure {
 			conv = s.MaxIt >= hugeIt || (s.Hook && nhook < s.MaxIt)
 		case "gd":
 			conv = true
-		case "adam":
+		case "adam", "adam_generic":
 			conv = neval < s.MaxIt
 		case "bfgs":
 			conv = s.MaxIt >= hugeIt
@@ -241,7 +241,7 @@ func genHuntSpec(r *Rng) Spec {
 	s.Obj.ErrAfter, s.Obj.NaNAfter, s.Obj.ErrAbove = -1, -1, 0
 	s.Cap = 4000
 	switch s.Routine {
-	case "adam":
+	case "adam", "adam_generic":
 		if s.Eps == 0 {
 			s.Eps = 1e-2
 		}
